@@ -34,41 +34,50 @@ func SequenceGeneratorChannel(
 	maxSequences := int64(solution.Model().SequenceSampleSize())
 	solutionStops := planUnit.SolutionStops()
 	ch := make(chan SolutionStops)
+
+	// The sequences are generated here, in the caller's goroutine: the generator
+	// draws from the solution's random source, which the caller draws from as
+	// well (tie-breaks while it consumes the channel). Only handing the
+	// sequences over happens in the goroutine.
+	var sequences []SolutionStops
+	switch planUnit.ModelPlanStopsUnit().NumberOfStops() {
+	case 1:
+		sequences = append(sequences, solutionStops)
+	default:
+		used := make([]bool, len(solutionStops))
+		inDegree := map[int]int{}
+		modelPlanUnit := planUnit.ModelPlanUnit().(*planMultipleStopsImpl)
+		dag := modelPlanUnit.dag.(*directedAcyclicGraphImpl)
+		for _, solutionStop := range solutionStops {
+			inDegree[solutionStop.ModelStop().Index()] = 0
+		}
+		for _, arc := range dag.arcs {
+			inDegree[arc.Destination().Index()]++
+		}
+
+		sequenceGenerator(
+			solutionStops,
+			make([]SolutionStop, 0, len(solutionStops)),
+			used,
+			inDegree,
+			dag,
+			solution.Random(),
+			&maxSequences,
+			func(solutionStops SolutionStops) {
+				sequences = append(sequences, solutionStops)
+			},
+			-1,
+		)
+	}
+
 	go func() {
 		defer close(ch)
-		switch planUnit.ModelPlanStopsUnit().NumberOfStops() {
-		case 1:
-			ch <- solutionStops
-			return
-		default:
-			used := make([]bool, len(solutionStops))
-			inDegree := map[int]int{}
-			modelPlanUnit := planUnit.ModelPlanUnit().(*planMultipleStopsImpl)
-			dag := modelPlanUnit.dag.(*directedAcyclicGraphImpl)
-			for _, solutionStop := range solutionStops {
-				inDegree[solutionStop.ModelStop().Index()] = 0
+		for _, sequence := range sequences {
+			select {
+			case <-quit:
+				return
+			case ch <- sequence:
 			}
-			for _, arc := range dag.arcs {
-				inDegree[arc.Destination().Index()]++
-			}
-
-			sequenceGenerator(
-				solutionStops,
-				make([]SolutionStop, 0, len(solutionStops)),
-				used,
-				inDegree,
-				dag,
-				solution.Random(),
-				&maxSequences,
-				func(solutionStops SolutionStops) {
-					select {
-					case <-quit:
-						return
-					case ch <- solutionStops:
-					}
-				},
-				-1,
-			)
 		}
 	}()
 
